@@ -94,11 +94,12 @@ Definition lc_inv_clauses (s : Lifecycle_state) : list bool :=
     (* 30: Open in progress *)
     imp (api_setup api) (negb (lc_sup_alive s) && negb (lc_gnotif s) && lc_no_loops s && imp (lc_hascur s) (lc_edone s) && spc_idle (lc_spc s));
     (* 31 *) imp (api_ostart api) (lc_sup_alive s && negb (lc_shutdown s) && unregistered s && negb (lc_etd s) && st_nc s &&
-                                   spc_idle (lc_spc s) && negb (lc_pclose s) && negb (lc_latch s) && (lc_pdisc s =? 0) && (lc_pt7 s =? 0) && negb (lc_stopreq s));
+                                   spc_idle (lc_spc s) && negb (lc_pclose s) && negb (lc_latch s) && (lc_pdisc s =? 0) && (lc_pt7 s =? 0) && negb (lc_stopreq s) &&
+                                   negb (lc_stopping s) && negb (lc_pups s));
     (* 32 *) imp (api_ocold api) (lc_sup_alive s && negb (lc_shutdown s) && unregistered s && lc_etd s && st_nc s &&
                                   spc_idle (lc_spc s) && negb (lc_pclose s) && negb (lc_latch s) && (lc_pdisc s =? 0) && (lc_pt7 s =? 0) && negb (lc_stopreq s));
     (* 33 *) imp (api_ocold2 api) (lc_edone s);
-    (* 34 *) imp (api_ofail api) (lc_shutdown s && unregistered s && spc_idle (lc_spc s) && (lc_pdisc s =? 0) && (lc_pt7 s =? 0));
+    (* 34 *) imp (api_ofail api) (lc_shutdown s && unregistered s && spc_idle (lc_spc s) && (lc_pdisc s =? 0) && (lc_pt7 s =? 0) && negb (lc_pups s));
     (* 35 *) imp (api_ofail34 api) (lc_edone s);
     (* 36 *) imp (api_ofail4 api) (lc_stopreq s);
     (* 37: Close in progress *)
@@ -116,6 +117,14 @@ Definition lc_inv_clauses (s : Lifecycle_state) : list bool :=
         (api_ostart api || api_ocold api || negb (spc_idle (lc_spc s)) || lc_hasloop s ||
          (lc_elis s && lc_gaccept s && negb (lc_eup s) && negb (lc_etd s)) || lc_ahold s);
     (* 46 *) imp (lc_gproc s) (lc_active s);
+    (* 49: event queue order *)
+    imp (lc_pups s) (negb (st_nc s) || lc_latch s);
+    (* 50 *) imp (negb (lc_pbehind s =? 0)) (lc_pups s);
+    (* 51: a session whose receive goroutine is gone has its disconnect queued where it will take effect *)
+    imp (negb (st_nc s) && negb (lc_grecv s))
+        ((lc_pups s && negb (lc_pbehind s =? 0)) || (negb (lc_pups s) && negb (lc_pdisc s =? 0)));
+    (* 52: nobody seals the start gate of a generation that is not being torn down *)
+    imp (lc_hasloop s && lpc_pubstart (lc_lpc s) && negb (lc_etd s)) (negb (lc_stopping s));
     (* 48 *) imp (api_owait api || api_setup23 api) (negb (lc_shutdown s));
     (* 47 *) imp (lc_gaccept s) (negb (lc_active s))
   ].
@@ -164,7 +173,7 @@ Ltac lc_break H :=
   end.
 
 Ltac lc_destruct_state s :=
-  destruct s as [active api oeid shutdown rgen cancelled stopping sup st latch spc reid pdisc pt7 pups pclose stopreq gnotif
+  destruct s as [active api oeid shutdown rgen cancelled stopping sup st latch spc reid pdisc pt7 pups pbehind pclose stopreq gnotif
     hascur eid etd edone esock elis eup estop1 estop2 ahold gsender grecv gproc gaccept glt gt7 gjoin
     hasloop lgen lcount lpc lprev lown tailc tailn err reconnects redials ndials npub].
 
